@@ -17,9 +17,11 @@ ASSUME FinalTable == \A res \in Diff : FinalRefines(res)
 ASSUME EqTable == \A x \in Byte : \A y \in Byte : \A sum \in {0, 1, 2, 128, 255} : EqStepRefines(sum, x, y)
 \* window helpers against their arithmetic meaning on the whole window sample
 ASSUME WindowOps == \A x \in -512..511 :
-          /\ Dec(Enc(x)) = x
+          /\ Dec[Enc(x)] = x
           /\ BNot(x) = -x - 1
           /\ Sar8(x) = (x - (x % 256)) \div 256
           /\ BAnd(x, -1) = x /\ BAnd(x, 0) = 0 /\ BOr(x, 0) = x
+\* the functional forms used by the generator agree with the property
+ASSUME Functional == \A p \in MCInputs : Memcmp(p[1], p[2]) = LexCmp(p[1], p[2]) /\ Memeq(p[1], p[2]) = (p[1] = p[2])
 ASSUME PrintT(<<"tables", Cardinality(Diff) * Cardinality(Diff), Cardinality(Diff), 256 * 256 * 5>>)
 =============================================================================
